@@ -67,7 +67,7 @@ func main() {
 	runner.Main(runner.Config{
 		ID:    "C18",
 		Level: "model_checking",
-		Rule:  "bounded exhaustive enumeration: signed size in {0,1,B-1,B,B+1,2B,2B+1 (thorough: +3B)} x written content = signed content with every assignment of {unchanged, first byte inverted, last byte inverted, replaced by the next signed block (full blocks only), replaced by its weak twin (same rolling checksum, other bytes)} to its blocks | truncated to every length of {0,1,B-1,B,B+1,2B,size-1} below the size | extended by {1,B-1,B,B+1} (thorough: every single-block alteration combined with every length change) ; plus a structured family (signed contents made of zero blocks and repeated blocks: Z.Z, A.A, A.A.A, Z.A, A.Z, with tails; every assignment of {unchanged, fresh random block, zero block, previous signed block, weak twin} to the blocks) x slicing = every set of <=3 cuts at positions {1,B-1,B,B+1,2B-1,2B,len-1} inside the written range, plus uniform writes of 1, 4096, 32768 and B+1 bytes x mode {error, wound, wound through AggregateWounds}. Sub-check two-writers: two files of one pool open at once and written in turns with pieces of 1..B+1 bytes (signed content must pass through both, error and wound mode). Sub-check pool-bowl: the real pool bowl (Transpose, and its entry writer fed in 32KiB pieces) writing the same contents into a validating pool in error mode: refused iff some written block differs from or lies beyond the signed blocks. Each case drives the real ValidatingPool writer over verif/lib/mempool; after a failed Write no further Write is issued and the writer is closed, as a caller with a deferred Close does. Oracle by direct byte comparison per block. Non-trivial = the written content has at least one differing or surplus block and at least one boundary between two Write calls lies inside a block.",
+		Rule:  "bounded exhaustive enumeration: signed size in {0,1,B-1,B,B+1,2B,2B+1 (thorough: +3B)} x written content = signed content with every assignment of {unchanged, first byte inverted, last byte inverted, replaced by the next signed block (full blocks only), replaced by its weak twin (same rolling checksum, other bytes)} to its blocks | truncated to every length of {0,1,B-1,B,B+1,2B,size-1} below the size | extended by {1,B-1,B,B+1} (thorough: every single-block alteration combined with every length change) ; plus a structured family (signed contents made of zero blocks and repeated blocks: Z.Z, A.A, A.A.A, Z.A, A.Z, with tails; every assignment of {unchanged, fresh random block, zero block, previous signed block, weak twin} to the blocks) x slicing = every set of <=3 cuts at positions {1,B-1,B,B+1,2B-1,2B,len-1} inside the written range, plus uniform writes of 1, 4096, 32768 and B+1 bytes x mode {error, wound, wound through AggregateWounds}. Sub-check two-writers: two files of one pool open at once and written in turns, or one after the other, with pieces of 1..B+1 bytes and an empty Write in front of every piece (signed content must pass through both, error and wound mode). Sub-check pool-bowl: the real pool bowl (Transpose, and its entry writer fed in 32KiB pieces) writing the same contents into a validating pool in error mode: refused iff some written block differs from or lies beyond the signed blocks. Each case drives the real ValidatingPool writer over verif/lib/mempool; after a failed Write no further Write is issued and the writer is closed, as a caller with a deferred Close does. Oracle by direct byte comparison per block. Non-trivial = the written content has at least one differing or surplus block and at least one boundary between two Write calls lies inside a block.",
 		Assumptions: []string{
 			"block contents are seeded pseudo-random (VERIF_SEED); altered bytes are bit inversions of single bytes, or whole signed blocks moved by one position",
 			"sequential part only: the goroutines of wound mode (relay, aggregator, a draining consumer) run under the Go scheduler; their interleavings are enumerated by the scheduler-controlled sub-check wound-interleavings (variant sched)",
@@ -555,7 +555,7 @@ func body(w *runner.W) {
 	// smaller than a block (a writable pool allows several writers at once): signed content
 	// must pass unchanged through both, in error mode and in wound mode
 	tw := runner.NewSub(w, "two-writers", func(c Case, r *runner.Rec) {
-		key := fmt.Sprintf("%s/%d", c.Signed, c.Size)
+		key := fmt.Sprintf("/%d", c.Size)
 		fx := fixtures[key]
 		if fx == nil {
 			signedOf[key] = signedContent(c.Size, w.Seed)
@@ -590,11 +590,20 @@ func body(w *runner.W) {
 				return
 			}
 		}
+		seq := strings.HasSuffix(c.Signed, "seq") // one file after the other instead of in turns
 		var off [2]int
 		for off[0] < len(contents[0]) || off[1] < len(contents[1]) {
 			for i := range ws {
 				if off[i] >= len(contents[i]) {
 					continue
+				}
+				if seq && i == 1 && off[0] < len(contents[0]) {
+					continue
+				}
+				// an empty write in front of every real one (legal, must change nothing)
+				if n, err := ws[i].Write(nil); err != nil || n != 0 {
+					r.Failf("two-writers:empty-write:"+c.Mode, "file %d: Write(nil) = %d, %v", 1+i, n, err)
+					return
 				}
 				end := off[i] + steps[i]
 				if end > len(contents[i]) {
@@ -638,6 +647,7 @@ func body(w *runner.W) {
 				}
 				for _, mode := range []string{"error", "wound"} {
 					tw.Do(Case{Size: size, Len: size, Cuts: st, Mode: mode})
+					tw.Do(Case{Signed: "seq", Size: size, Len: size, Cuts: st, Mode: mode})
 				}
 			}
 		}
